@@ -154,6 +154,33 @@ theorem saturating_from_f64_pos_inf (bits : ℕ) :
     saturating bits (tryFromF64 bits b64.infBits) = some (2 ^ bits - 1) := by
   rw [try_from_f64_pos_inf]; rfl
 
+/-- totality: on every `u64` bit pattern the conversion returns one of the four documented outcomes — the
+    three `assert!`s of the source (`is_normal`, `sign == 0`, `biased_exponent >= 1023`) never fire. -/
+theorem try_from_f64_total (bits x : ℕ) (hx64 : x < 2 ^ 64) : tryFromF64 bits x ≠ .panic := by
+  cases hd : decode b64 x with
+  | nan => rw [try_from_f64_nan bits x hd]; simp
+  | inf neg =>
+    cases neg
+    · rw [inf_pattern x hx64 hd, try_from_f64_pos_inf]; simp
+    · obtain ⟨w, hw⟩ := try_from_f64_negative bits x (Or.inr hd)
+      rw [hw]; simp
+  | fin neg m e =>
+    by_cases hneg : neg = true ∧ m ≠ 0
+    · obtain ⟨hn, hm⟩ := hneg
+      subst hn
+      obtain ⟨w, hw⟩ := try_from_f64_negative bits x (Or.inl ⟨m, e, hd, hm⟩)
+      rw [hw]; simp
+    · have hnn : neg = false ∨ m = 0 := by
+        cases neg
+        · exact Or.inl rfl
+        · right; by_contra hc; exact hneg ⟨rfl, hc⟩
+      obtain ⟨h1, h2⟩ := try_from_f64_spec bits x m neg e hx64 hd hnn
+      rcases Nat.lt_or_ge (floorHalf m e) (2 ^ bits) with h | h
+      · rw [h1 h]; simp
+      · obtain ⟨w, hw⟩ := h2 h
+        rw [hw]; simp
+
+
 /-! ## the defect that was repaired (DESIGN §9): `value + 0.5` is a tie on odd integers in `[2^52, 2^53)`
 
 `tryFromF64Old` is the model of the code before commit f6c7d9d. The kernel evaluates it on the witnesses:
